@@ -376,16 +376,16 @@ func runC18(c *lib.Ctx) {
 	text, native, ops, simple = r.sweepCases()
 	nSweep := len(text) + len(native) + len(ops) + len(simple)
 	// composite, seeded
-	for i := 0; i < c.Scale(250, 6000); i++ {
+	for i := 0; i < c.Scale(300, 25000); i++ {
 		text = append(text, r.randomTextCase())
 	}
-	for i := 0; i < c.Scale(400, 12000); i++ {
+	for i := 0; i < c.Scale(500, 80000); i++ {
 		native = append(native, &c18Case{Family: "native", Doc: strings.Join(r.g.doc(5).wire(), " "), Via: r.g.r.Intn(6)})
 	}
-	for i := 0; i < c.Scale(1500, 40000); i++ {
+	for i := 0; i < c.Scale(2500, 300000); i++ {
 		ops = append(ops, &c18Case{Family: "ops", Doc: strings.Join(r.g.container(1+r.g.r.Intn(5)).wire(), " "), Via: r.g.r.Intn(3)})
 	}
-	for i := 0; i < c.Scale(1500, 40000); i++ {
+	for i := 0; i < c.Scale(2000, 200000); i++ {
 		simple = append(simple, &c18Case{Family: "simplify", GoVal: strings.Join(r.g.goValue(3).wire(), " ")})
 	}
 	r.runText(text)
@@ -460,8 +460,8 @@ func (r *c18Run) replay() {
 		Signature string   `json:"signature"`
 	}
 	if err := lib.ReadJSON(r.c.Replay, &rec); err != nil || rec.Case == nil {
-		fmt.Println("cannot read replay file:", err)
-		return
+		fmt.Fprintln(os.Stderr, "cannot read replay file (give an absolute path):", r.c.Replay, err)
+		os.Exit(2)
 	}
 	cs := rec.Case
 	cs.Sweep = false
